@@ -205,6 +205,15 @@ def param (v : View) (k : Bytes) : Bytes :=
     | some kv => kv.2
     | none => []
 
+/-- **app-level pool**: whatever object the app pool hands out (even one a broken `Put` left dirty) and whatever the
+    handler does (Bind caches the body and the presence map), the handler of a request starts with its own router
+    context, its app and no binding metadata, and a clean object goes back. The three assignments and the three
+    clears are re-read from the source by `Tie/C03.app_pool_covers_fields`. -/
+theorem app_fresh (pooled : AppCtx) (rc a : Nat) (handler : AppCtx → AppCtx) :
+    (appWrap pooled rc a handler).1 = { context := rc, app := a, bindingMeta := 0 } ∧
+    (appWrap pooled rc a handler).2 = {} := by
+  simp [appWrap, appPut]
+
 /-! ### non-vacuity and what the theorem excludes -/
 
 /-- the preparation of the tree-traversal path of ServeHTTP for `/d/:id` (as in the skeleton: Request, Response,
